@@ -156,7 +156,12 @@ def oracle(ctx, core, case, ans):
                     ctx.report([core, "delivery_does_not_push_exactly_five_bytes"], f"step {k}: S {prev['s']:#x} -> {o['s']:#x}", cx)
                 if f_pc not in bnd and not nested:
                     ctx.report([core, "pushed_pc_is_not_an_instruction_boundary_of_the_interrupted_program"], f"step {k}: pushed PC {f_pc:#x}", cx)
-                if (f_f & 3) != (prev["f"] & 3):
+                # the Rust runtime executes the instruction at the old PC and delivers in the same step: when that instruction
+                # sets flags (INC A), the pushed flags are the new ones, which the trace does not show separately
+                hb = bytes.fromhex(handler)
+                at = prev["pc"]
+                opc = mainb[at - MAIN] if MAIN <= at < MAIN + len(mainb) else (hb[at - HANDLER] if HANDLER <= at < HANDLER + len(hb) else None)
+                if (f_f & 3) != (prev["f"] & 3) and not (core == "rs" and opc == 0x6C):
                     ctx.report([core, "pushed_flags_differ_from_current_flags"], f"step {k}: pushed F {f_f} current {prev['f']}", cx)
                 if not (f_imr & 0x80):
                     src = "key_or_onkey" if (o["isr"] & 0x0C) else "timer"
@@ -199,7 +204,8 @@ def oracle(ctx, core, case, ans):
         if ready and not delivered:
             masked_since.setdefault("ready", k)
             if k - masked_since["ready"] >= 4:
-                ctx.report([core, "enabled_pending_request_not_taken"], f"steps {masked_since['ready']}..{k}: IMR {o['imr']:#04x} ISR {o['isr']:#04x} (fresh bits {fresh:#04x}) and no interrupt", cx)
+                srcs = "+".join(nm for b, nm in ((1, "MTI"), (2, "STI"), (4, "KEY"), (8, "ONK")) if o["imr"] & fresh & b)
+                ctx.report([core, "enabled_pending_request_not_taken", srcs], f"steps {masked_since['ready']}..{k}: IMR {o['imr']:#04x} ISR {o['isr']:#04x} (fresh bits {fresh:#04x}) and no interrupt", cx)
                 masked_since.pop("ready")
         else:
             masked_since.pop("ready", None)
